@@ -470,3 +470,27 @@ package types
 //@   loop[C16] 2 invariant (forall k int :: 0 <= k && k <= idx ==> hi(typesDef[k].SessionType) <= visitedDefs(typesDef, idx))
 //@   loop[C16] 2 invariant (forall k int :: 0 <= k && k <= idx ==> topAssigned(typesDef[k].SessionType, typesDef[k].Modality, dom(labelledTypesEnv), vals(labelledTypesEnv)))
 //@   safety C09
+
+// ---------------------------------------------------------------------------------------------
+// C09: the printers used in diagnostics. Every mode slot of every type node holds a mode object: this is what
+// the parser's conversion and the constructors produce and what every function that writes a mode preserves. It is
+// stated over all references (allocation does not change the modelled heap: a node allocated later is initialised
+// with its modes, and a function that allocated a node without one would contradict its own precondition, which
+// the reachability obligation of every function reports).
+//@ macro modesNN() bool = (forall y1 *LabelType :: y1.Mode != nil) && (forall y2 *UnitType :: y2.Mode != nil) &&
+//@    (forall y3 *SendType :: y3.Mode != nil) && (forall y4 *ReceiveType :: y4.Mode != nil) &&
+//@    (forall y5 *SelectLabelType :: y5.Mode != nil) && (forall y6 *BranchCaseType :: y6.Mode != nil) &&
+//@    (forall y7 *UpType :: y7.From != nil && y7.To != nil) && (forall y8 *DownType :: y8.From != nil && y8.To != nil)
+
+//@ contract interface Modality.String(self)
+//@   requires[C09] self != nil
+//@ contract interface Modality.FullString(self)
+//@   requires[C09] self != nil
+//@ contract interface SessionType.String(self)
+//@   requires[C09] shapeOK(self) && modesNN()
+//@   decreases[C09] size(self)
+//@ contract interface SessionType.StringWithOuterModality(self)
+//@   requires[C09] shapeOK(self) && modesNN()
+//@   decreases[C09] size(self)
+//@ contract stringifyBranches
+//@   inline
